@@ -36,9 +36,11 @@ class PinvRegistry(object):
         self.mats[tag] = m.copy()
         n = m.shape[0]
         names = ['%s_%d_%d' % (tag, a, b) for a in range(n) for b in range(n)]
+        from . import algebra
         if any(isinstance(v, Poly) and not v.is_real() for v in m.items()):
-            from . import algebra
             algebra.COMPLEX_ATOMS.update(names)      # the inverse of a complex matrix is complex
+        else:
+            algebra.COMPLEX_ATOMS.difference_update(names)   # the names are reused by every registry: no stale marks
         return Arr((n, n), [Poly.sym(nm) for nm in names])
 
     def lstsq_hook(self, models, a, b, *args, **kw):
